@@ -211,6 +211,14 @@ def fmaxWindow (vs : List Float) (s0 : Int) : Float :=
 
 def tol : Float := 1e-9
 
+/-- the statement for dyadic Trim on the implementation's window `(a, b)`; proved in
+    `Properties/C06_checker.lean` (`trim_checker_iff`) -/
+def specTrim (vs : List Int) (s0 a b : Int) : Option String :=
+  if a > b then some "start>end"
+  else if a < b && !isWindow s0 vs.length a b then some "window-outside-the-feature"
+  else if !isMaxWindow vs s0 a b then some "window-sum-not-maximal"
+  else none
+
 def sizeTag (n : Nat) : String := if n = 0 then "empty" else if n ≤ 3 then "len1-3" else "len>3"
 
 def handleTokens (inp : List String) (obs : String) : Verdict :=
@@ -287,11 +295,7 @@ def handleTokens (inp : List String) (obs : String) : Verdict :=
         match tokens obs with
         | [a, b] =>
           match parseInt a, parseInt b with
-          | some a, some b =>
-            if a > b then some "start>end"
-            else if a < b && !isWindow s0 vs.length a b then some "window-outside-the-feature"
-            else if !isMaxWindow vs s0 a b then some "window-sum-not-maximal"
-            else none
+          | some a, some b => specTrim vs s0 a b
           | _, _ => some "unparsable-observation"
         | _ => some (if obs.startsWith "panic" then "panic" else "unparsable-observation")
       finish why m obs tags
